@@ -6,6 +6,7 @@ CONSTANTS
   BinOps <- MC_OpsArith
   Maps <- MC_MapsWordsQuick
   OnePairs <- MC_PairsWordsQuick
+  Routes = {}
   MaxUnits = 3
   MinUnits = 0
   MaxDepth = 1
